@@ -428,3 +428,112 @@ def rule_shadow1(ctx: Ctx) -> RuleResult:
               f"`{nm}` can be emitted as an import but is not in blacklist_words: a model or field of that name rebinds it "
               f"and the module's own annotations / decorators break", im.node.lineno)
     return rr
+
+
+# ---------------------------------------------------------------------------------------------------------------
+def find_class_def(dotted: str, name: str, depth: int = 0) -> Optional[Tuple[str, ast.ClassDef, ast.Module]]:
+    """(module, ClassDef, tree) of a class as exported by a module, following `from .x import name` / `import *` re-exports."""
+    if depth > 5:
+        return None
+    f = find_module_file(dotted)
+    if not f or not f.endswith(".py"):
+        return None
+    try:
+        tree = ast.parse(open(f, encoding="utf-8").read())
+    except (SyntaxError, OSError):
+        return None
+    for st in ast.walk(tree):
+        if isinstance(st, ast.ClassDef) and st.name == name and st in tree.body:
+            return dotted, st, tree
+    for st in ast.walk(tree):
+        if isinstance(st, ast.ImportFrom):
+            for a in st.names:
+                if (a.asname or a.name) == name or a.name == "*":
+                    sub = _abs(dotted, f, st)
+                    r = find_class_def(sub, a.name if a.name != "*" else name, depth + 1)
+                    if r:
+                        return r
+    return None
+
+
+def class_public_attrs(dotted: str, name: str, depth: int = 0) -> Optional[Set[str]]:
+    """Public attribute names a class defines (methods, class-level bindings, nested classes), bases in reach included."""
+    r = find_class_def(dotted, name)
+    if r is None:
+        return None
+    mod, cd, tree = r
+    out: Set[str] = set()
+    for st in cd.body:
+        if isinstance(st, (ast.FunctionDef, ast.AsyncFunctionDef, ast.ClassDef)):
+            out.add(st.name)
+        elif isinstance(st, ast.Assign):
+            for t in st.targets:
+                if isinstance(t, ast.Name):
+                    out.add(t.id)
+        elif isinstance(st, ast.AnnAssign) and st.value is not None and isinstance(st.target, ast.Name):
+            out.add(st.target.id)
+        elif isinstance(st, ast.If):      # `if TYPE_CHECKING:` blocks declare, they do not bind
+            continue
+    if depth < 3:
+        for b in cd.bases:
+            if isinstance(b, ast.Name):
+                sub = class_public_attrs(mod, b.id, depth + 1)
+                if sub is None:
+                    # imported into the defining module?
+                    for st in tree.body:
+                        if isinstance(st, ast.ImportFrom) and any((a.asname or a.name) == b.id for a in st.names):
+                            f = find_module_file(mod)
+                            sub = class_public_attrs(_abs(mod, f, st), b.id, depth + 1)
+                if sub:
+                    out |= sub
+    return {n for n in out if not n.startswith("_")}
+
+
+def rule_shadow2(ctx: Ctx) -> RuleResult:
+    """Field names of a generated class must not collide with attributes of the framework base class it derives from."""
+    rr = RuleResult("SHADOW-2", "no generated field name is an attribute of the framework base class", floor=1)
+    bl = _eval_blacklist(ctx)
+    prog = ctx.prog
+    # (generator class, base class text, import module) from `generate(bases=...)` and the import it emits
+    checked = 0
+    for g in _generator_classes(ctx):
+        for f in g.methods.get("generate", []):
+            bases = None
+            for c in walk_no_nested(f.node):
+                if isinstance(c, ast.Call):
+                    for kw in c.keywords:
+                        if kw.arg == "bases" and isinstance(kw.value, ast.Constant) and isinstance(kw.value.value, str):
+                            bases = kw.value.value
+            if not bases:
+                continue
+            for base_name in [b.strip().split("(")[0] for b in bases.split(",")]:
+                if "=" in base_name or not base_name.isidentifier():
+                    continue
+                # the module it is imported from, as emitted by this generator
+                src = None
+                for t in walk_no_nested(f.node):
+                    if isinstance(t, ast.Tuple) and len(t.elts) == 2 and isinstance(t.elts[0], ast.Constant) and \
+                            isinstance(t.elts[1], (ast.List, ast.Tuple)) and any(
+                            isinstance(e, ast.Constant) and e.value == base_name for e in t.elts[1].elts):
+                        src = t.elts[0].value
+                if src is None:
+                    continue
+                attrs = class_public_attrs(src, base_name)
+                if attrs is None:
+                    rr.notes.append(f"{g.name}: source of {src}.{base_name} is not installed here; its attribute names are not checked")
+                    continue
+                checked += 1
+                for nm in sorted(attrs):
+                    rr.instances += 1
+                    ok = nm in bl
+                    rr.ob(f.relpath, f.qualname, f"{base_name}.{nm}", f"a key that sanitises to an attribute name of {src}.{base_name} "
+                          f"gets a suffix (the framework refuses or mis-reads a field that shadows its own attribute)",
+                          DISCHARGED if ok else VIOLATED, "black-listed" if ok else
+                          f"`{nm}` is an attribute of {base_name} but not in blacklist_words: a sample with the key \"{nm}\" gives a "
+                          f"class that does not load (pydantic: NameError: Field name \"{nm}\" shadows a BaseModel attribute)",
+                          f.node.lineno)
+    if checked == 0:
+        rr.instances += 1
+        rr.ob(BASE, "<module>", "framework base classes", "attribute names of the framework base classes are black-listed", ALLOWED,
+              "no framework distribution with readable source is installed here: unverifiable (counted, not failed)", 1)
+    return rr
